@@ -230,6 +230,9 @@ func runC04(c *core.Ctx) {
 	c.Doc("C04.post", "no reply to a Post after the method ran", 30)
 	c.Doc("C04.post-decode-error", "a malformed Post must not be answered either (per generated file)", 4)
 	rulePostNoReply(c, isType, isK(kPost))
+	// the endpoint itself answers only Calls when a queue is full (rule shared with C12)
+	c.Doc("C12.dispatch", "the full-queue error of dispatch is sent for Call messages only (a Post produces no response)", 1)
+	ruleFullQueueError(c, a)
 
 	// ------------------------------------------------------------ delivery
 	c.Doc("C04.delivery", "dispatch is the only sender on handler queues; single-shot handlers are removed in the same critical section", 2)
